@@ -294,6 +294,14 @@ impl HistSystem for Sys {
                     return Err(dv("contains", format!("table {t}: contains({k:?}) disagrees with the model")));
                 }
             }
+            // integer keys through the `Borrow<i64>` implementation of Value
+            for n in [0i64, 1, 2, 7, 5] {
+                let exp = m.iter().find(|(mk_, _)| *mk_ == MK::Int(n)).map(|e| e.1);
+                let got = table.get(&n).map(|v| inst.show(v));
+                if got != exp {
+                    return Err(dv("get/i64-borrow", format!("table {t}: get(&{n}i64) = {got:?}, model {exp:?}")));
+                }
+            }
             for (s, mkey) in [("a", MK::A), ("b", MK::B), ("", MK::Int(-12345))] {
                 let exp = m.iter().find(|(mk_, _)| *mk_ == mkey).map(|e| e.1);
                 let got = table.get(s).map(|v| inst.show(v));
